@@ -232,7 +232,7 @@ impl<T: AsRef<[u8]> + AsMut<[u8]>> Packet<T> {
 
     pub fn set_opcode(&mut self, val: Opcode) {
         let field = &mut self.buffer.as_mut()[field::FLAGS];
-        let mask = 0x3800;
+        let mask = 0x7800;
         let val: u8 = val.into();
         let val = (val as u16) << 11;
         let old = NetworkEndian::read_u16(field);
